@@ -305,6 +305,7 @@ def run(ctx):
             r.violate(fn, f"Lexer::{fn} does not create a fresh {var} outline", f.loc())
 
     rule_self_closing_ns(ctx, mir)
+    rule_ns_primitives(ctx, mir)
 
     rule_foreign_feedback_table(ctx, idx, T)
     # ------------------------------------------------------------------ R03.9 (shared with C06 R06.1)
@@ -530,6 +531,33 @@ def rule_product(ctx, g, aut, rid="R03.1"):
     if not ex.mismatches and (ex.emissions < 1000 or len(ex.pairs) < 90):
         raise EngineError(rid + ": the product exploration covered only %d emissions / %d state pairs" % (ex.emissions, len(ex.pairs)))
 
+
+
+def rule_ns_primitives(ctx, mir, rid="R03.11"):
+    """the two primitives under every table of the simulator"""
+    r = ctx.rule(rid, "namespace stack primitives: enter_ns(ns) pushes ns and makes it current unconditionally (nested <svg> in SVG included — its end tag pops) and allows CDATA iff ns is not HTML; leave_ns pops, makes the new top current and allows CDATA iff the namespace it ends up in is not HTML", "E-MIR", floor=4)
+    en = mir.fn("TreeBuilderSimulator::enter_ns")
+    push = [(bi, t) for bi, t in en.calls(r"Vec::push$")]
+    wcur = [(bi, en.deep(st["rv"]["o"])) for bi, b in enumerate(en.blocks) for st in b["stmts"] if st["k"] == "assign" and st["p"]["proj"] and en.describe_place(st["p"]).endswith("current_ns") and st["rv"]["k"] == "use"]
+    r.inst("enter_ns|push-unconditional", sample={"pushes": len(push), "current_ns_writes": [w for _, w in wcur]})
+    if len(push) != 1 or guarding_branches(en, push[0][0]) or "ns_stack" not in en.deep(push[0][1]["args"][0]) or en.deep(push[0][1]["args"][1]) != "ns" or len(wcur) != 1 or wcur[0][1] != "ns" or guarding_branches(en, wcur[0][0]):
+        r.violate("enter_ns|push-unconditional", "TreeBuilderSimulator::enter_ns does not push its namespace (and make it current) on every call: a root nested in its own namespace (<svg><svg>) is then not on the stack, its end tag pops the outer entry, and the simulator believes it is back in HTML inside the outer island", en.loc())
+    def cdata_operand(f):
+        return [f.deep(st["rv"]["ops"][0]) for b in f.blocks for st in b["stmts"] if st["k"] == "assign" and st["rv"]["k"] == "agg" and (st["rv"].get("name") or "").endswith("SetAllowCdata")]
+    ce = cdata_operand(en)
+    r.inst("enter_ns|cdata", sample={"operand": [c[:60] for c in ce]})
+    if len(ce) != 1 or not ce[0].startswith("PartialEq::ne(ns, ") or "Html" not in ce[0] and "promoted" not in ce[0]:
+        r.violate("enter_ns|cdata", f"enter_ns answers SetAllowCdata({ce}) instead of `ns != Html`", en.loc())
+    lv = mir.fn("TreeBuilderSimulator::leave_ns")
+    pops = [bi for bi, t in lv.calls(r"Vec::pop$")]
+    wl = [(bi, lv.deep(st["rv"]["o"])) for bi, b in enumerate(lv.blocks) for st in b["stmts"] if st["k"] == "assign" and st["p"]["proj"] and lv.describe_place(st["p"]).endswith("current_ns") and st["rv"]["k"] == "use"]
+    cl = cdata_operand(lv)
+    r.inst("leave_ns|pop-then-top", sample={"pops": len(pops), "current_ns_from": [w[:50] for _, w in wl], "cdata": [c[:50] for c in cl]})
+    if len(pops) != 1 or guarding_branches(lv, pops[0]) or len(wl) != 1 or "last(" not in wl[0][1] or not lv.dominates(pops[0], wl[0][0]):
+        r.violate("leave_ns|pop-then-top", "TreeBuilderSimulator::leave_ns no longer pops one entry and makes the new top of the stack the current namespace", lv.loc())
+    r.inst("leave_ns|cdata")
+    if len(cl) != 1 or not cl[0].startswith("PartialEq::ne(self.current_ns, "):
+        r.violate("leave_ns|cdata", f"leave_ns answers SetAllowCdata({[c[:70] for c in cl]}) instead of `current_ns != Html` computed after the pop: CDATA sections are (dis)allowed according to the namespace that was left, not the one the parser is in — e.g. after a nested </svg> inside <svg>, `<![CDATA[..]]>` becomes a bogus comment", lv.loc())
 
 
 def rule_self_closing_ns(ctx, mir, rid="R03.7"):
